@@ -1,3 +1,69 @@
-//! placeholder, filled in below
+//! C11 (summary part, Engine K) — `stats::basic_stats`: with finite inputs min/max are the true
+//! extremes and the median is a middle order statistic; NaN inputs never make it fail.
 use crate::Src;
-pub fn by_name(_name: &str) -> Option<fn(&mut Src)> { None }
+use crate::{chk, cov};
+use mini_mcmc::stats::basic_stats;
+use ndarray::Array1;
+
+macro_rules! c11_basic {
+    ($name:ident, $n:expr, $finite:expr) => {
+        pub fn $name(src: &mut Src) {
+            const N: usize = $n;
+            let mut v: [f32; N] = [0.0; N];
+            let mut i = 0;
+            while i < N {
+                v[i] = src.f32();
+                if $finite {
+                    src.assume(v[i].is_finite());
+                }
+                i += 1;
+            }
+            crate::env::set_sqrt32(src, 2);
+            let st = basic_stats("x", Array1::from(v.to_vec()));
+            if $finite {
+                let mut mn = v[0];
+                let mut mx = v[0];
+                let mut i = 1;
+                while i < N {
+                    if v[i] < mn {
+                        mn = v[i];
+                    }
+                    if v[i] > mx {
+                        mx = v[i];
+                    }
+                    i += 1;
+                }
+                chk!(src, st.min == mn, "min is the smallest value");
+                chk!(src, st.max == mx, "max is the largest value");
+                // middle order statistic: at least floor(N/2) values on either side (ties allowed)
+                let mut le = 0;
+                let mut ge = 0;
+                let mut i = 0;
+                while i < N {
+                    if v[i] <= st.median {
+                        le += 1;
+                    }
+                    if v[i] >= st.median {
+                        ge += 1;
+                    }
+                    i += 1;
+                }
+                chk!(src, le >= (N + 1) / 2 && ge >= N / 2 && le + ge >= N + 1, "median is a middle order statistic of the values");
+            }
+            cov!(src, st.min.is_nan() || st.max.is_nan() || st.median.is_nan() || $finite, "NaN reaches the summary");
+            cov!(src, true, "end reached");
+        }
+    };
+}
+c11_basic!(c11_basic_fin_n3, 3, true);
+c11_basic!(c11_basic_fin_n4, 4, true);
+c11_basic!(c11_basic_any_n3, 3, false);
+
+pub fn by_name(name: &str) -> Option<fn(&mut Src)> {
+    Some(match name {
+        "c11_basic_fin_n3" => c11_basic_fin_n3,
+        "c11_basic_fin_n4" => c11_basic_fin_n4,
+        "c11_basic_any_n3" => c11_basic_any_n3,
+        _ => return None,
+    })
+}
